@@ -12,7 +12,7 @@ import (
 	"github.com/google/martian/v3/zzverif/vf"
 )
 
-func hasHeader(hs []Header, name, value string) bool {
+func zzhasHeader(hs []Header, name, value string) bool {
 	for _, h := range hs {
 		if h.Name == name && h.Value == value {
 			return true
@@ -21,14 +21,14 @@ func hasHeader(hs []Header, name, value string) bool {
 	return false
 }
 
-var c16ct = []string{"text/plain", "application/x-www-form-urlencoded", "application/octet-stream", "", "multipart/form-data; boundary=b"}
+var zzc16ct = []string{"text/plain", "application/x-www-form-urlencoded", "application/octet-stream", "", "multipart/form-data; boundary=b"}
 
 // VerifC16Request: the HAR request entry describes the request; post data is
 // the body as the origin receives it (un-chunked, not content-decoded),
 // parsed into parameters for form bodies.
 func VerifC16Request() {
 	framing := vf.Choice("framing", 2) // Content-Length or chunked
-	ct := c16ct[vf.Choice("content-type", len(c16ct))]
+	ct := zzc16ct[vf.Choice("content-type", len(zzc16ct))]
 	var wire []byte
 	var k, v string
 	form := ct == "application/x-www-form-urlencoded"
@@ -71,14 +71,14 @@ func VerifC16Request() {
 		return
 	}
 	vf.Assert(hr.Method == "POST" && hr.URL == "http://example.com/p?a=1&b=two" && hr.HTTPVersion == "HTTP/1.1", "method-url-version")
-	vf.Assert(hasHeader(hr.Headers, "Host", "example.com"), "host-header-listed")
+	vf.Assert(zzhasHeader(hr.Headers, "Host", "example.com"), "host-header-listed")
 	if framing == msg.FrameChunked {
-		vf.Assert(hasHeader(hr.Headers, "Transfer-Encoding", "chunked"), "transfer-encoding-listed")
+		vf.Assert(zzhasHeader(hr.Headers, "Transfer-Encoding", "chunked"), "transfer-encoding-listed")
 	} else if len(wire) > 0 {
 		// a zero Content-Length is indistinguishable from an absent one in net/http's request
-		vf.Assert(hasHeader(hr.Headers, "Content-Length", strconv.Itoa(len(wire))), "content-length-listed")
+		vf.Assert(zzhasHeader(hr.Headers, "Content-Length", strconv.Itoa(len(wire))), "content-length-listed")
 	}
-	vf.Assert(hasHeader(hr.Headers, "X-Multi", "a") && hasHeader(hr.Headers, "X-Multi", "b"), "multi-valued-header-listed")
+	vf.Assert(zzhasHeader(hr.Headers, "X-Multi", "a") && zzhasHeader(hr.Headers, "X-Multi", "b"), "multi-valued-header-listed")
 	vf.Assert(len(hr.QueryString) == 2, "query-parameters")
 	for _, q := range hr.QueryString {
 		vf.Assert((q.Name == "a" && q.Value == "1") || (q.Name == "b" && q.Value == "two"), "query-parameter-values")
@@ -146,14 +146,14 @@ func VerifC16Response() {
 	}
 	switch framing {
 	case msg.FrameChunked:
-		vf.Assert(hasHeader(hs.Headers, "Transfer-Encoding", "chunked"), "transfer-encoding-listed")
+		vf.Assert(zzhasHeader(hs.Headers, "Transfer-Encoding", "chunked"), "transfer-encoding-listed")
 	case msg.FrameLength:
 		if len(wire) > 0 {
-			vf.Assert(hasHeader(hs.Headers, "Content-Length", strconv.Itoa(len(wire))), "content-length-listed")
+			vf.Assert(zzhasHeader(hs.Headers, "Content-Length", strconv.Itoa(len(wire))), "content-length-listed")
 		}
 	}
 	if enc != "" {
-		vf.Assert(hasHeader(hs.Headers, "Content-Encoding", enc), "content-encoding-listed")
+		vf.Assert(zzhasHeader(hs.Headers, "Content-Encoding", enc), "content-encoding-listed")
 	}
 	vf.Assert(hs.Content != nil && hs.Content.MimeType == "text/html", "content-mime-type")
 	if withBody && hs.Content != nil {
@@ -196,7 +196,7 @@ func VerifC16Redirect() {
 	vf.Reach("done")
 }
 
-var alphabet = []byte{'a', '"', '\\', 0x01, 0x7f, 0x80, 0xc3, 0xa9, 0xff, '<', 0xe2, 0x80, 0xa8}
+var zzalphabet = []byte{'a', '"', '\\', 0x01, 0x7f, 0x80, 0xc3, 0xa9, 0xff, '<', 0xe2, 0x80, 0xa8}
 
 // VerifC16JSON: PostData and Content survive Marshal -> Unmarshal exactly for
 // byte strings over an alphabet that includes quotes, control bytes, valid
@@ -205,7 +205,7 @@ func VerifC16JSON() {
 	n := vf.Choice("len", vf.Param("strlen")+1)
 	b := make([]byte, n)
 	for i := range b {
-		b[i] = alphabet[vf.Choice("byte", len(alphabet))]
+		b[i] = zzalphabet[vf.Choice("byte", len(zzalphabet))]
 	}
 	pd := &PostData{MimeType: "text/plain", Params: []Param{{Name: "n", Value: "v"}}, Text: string(b)}
 	js, err := json.Marshal(pd)
@@ -238,7 +238,7 @@ func VerifC16EntryRoundTrip() {
 		body = bytes.Repeat([]byte("a"), 510+vf.Choice("prefix", 3))
 	}
 	for i, n := 0, vf.Choice("tail-len", 3); i < n; i++ {
-		body = append(body, alphabet[vf.Choice("byte", len(alphabet))])
+		body = append(body, zzalphabet[vf.Choice("byte", len(zzalphabet))])
 	}
 	ct := []string{"text/html", "image/png"}[vf.Choice("content-type", 2)]
 	req, _ := msg.NewRequest(msg.Spec{Wire: body, ContentType: ct})
